@@ -591,4 +591,16 @@ theorem pad_loop (reg : Nat → Bool) (m : Mode) (k : Nat) (hk : k < 12) :
   -- the registry is never consulted on these inputs: plain evaluation
   rcases this with h | h | h | h | h | h | h | h | h | h | h | h <;> subst h <;> cases m <;> rfl
 
+/-! ### plain scripts -/
+
+/-- an op that is not FLG(n) -/
+def isPlain : Op → Bool
+  | .flg _ _ | .shFlg _ _ => false
+  | _ => true
+
+/-- a script without FLG(n): only data bytes -/
+def PlainScript (ops : List Op) : Prop := ∀ op ∈ ops, isPlain op = true
+
+instance (ops : List Op) : Decidable (PlainScript ops) := by unfold PlainScript; infer_instance
+
 end Gzx.AztecHL
